@@ -1,4 +1,5 @@
 import Ecal.Props.C05
+import Ecal.Lemmas.C06EvalSites
 /-!
 # C11 — part of `hW` as a theorem about the REAL evaluator model's scope primitives
 
@@ -29,9 +30,13 @@ Whole bodies: `eval_statements_frame` (the sequencing induction over the `statem
 statements satisfying `StmtOK`), `fragment_body_frame` / `sink_body_leaves_others_alone`: a body of `let v` and
 `v := w` statements evaluated by `Ecal.Ev.eval` in the sink scope writes nothing outside the sink's sub-tree —
 `hW` for this fragment with no hypothesis about what evaluation writes.
-What is NOT here (stated, not proved): `StmtOK` for the other statements of the intended fragment — arithmetic
-and literals on the right side, `if` (needs allocation: `block_scope_keeps_outside` is only the single step and
-`Frame` is size-preserving), x.* calls — and the READ half of isolation.
+Computed values (round 6): `arithExpr_reads` — `eval` on any arithmetic expression (`+ - * / //`, nested) over
+plain variables and number literals leaves the state unchanged whatever the result (`eval` on these nodes is
+`numOp`: `Ecal.Lemmas.C06Sites.eval_arith`); `eval_assign_expr_statement_frame` (`v := e` for any reading `e`);
+`computed_body_frame` / `computed_body_leaves_others_alone`: bodies of `let v` and `v := e` statements.
+What is NOT here (stated, not proved): `StmtOK` for `if` (needs allocation: `block_scope_keeps_outside` is only
+the single step and `Frame` is size-preserving), for x.* calls, strings, comparisons; and the READ half of
+isolation (the result of the body depends only on the sink's sub-tree and the unchanged declaring chain).
 -/
 namespace Ecal.Props.C11Frame
 open Ecal.Ev
@@ -768,4 +773,248 @@ example : ∀ c ∈ demoBody.children, ∃ c', c = some c' ∧ (IsLet c' ∨ IsA
   · exact ⟨_, rfl, Or.inr ⟨idNode 121, idNode 103, _, _, [121], [103], rfl, rfl, rfl, rfl, rfl, rfl,
       by decide, rfl, rfl, rfl, by decide, by decide⟩⟩
 
+/-! ### computed values: literals and arithmetic on the right side (round 6) -/
+
+/-- evaluating `e` (any fuel, scope `sc`) only reads: the state is what it was, whatever the result -/
+def Reads (sc : Nat) (e : Ecal.Parse.Node) : Prop :=
+  ∀ f s r s', runM (eval f sc e) s = (r, s') → s' = s
+
+theorem exists_pure_ite {α : Type} (c : Prop) [Decidable c] (a b : α) :
+    ∃ x, (if c then (pure a : M α) else pure b) = pure x := by
+  by_cases h : c
+  · exact ⟨a, by simp [h]⟩
+  · exact ⟨b, by simp [h]⟩
+
+theorem numberOf_pure (t : Ecal.Lex.Tok) : ∃ x, numberOf t = pure x := by
+  unfold numberOf
+  simp only
+  exact exists_pure_ite _ _ _
+
+theorem eval_zero_state (sc : Nat) (e : Ecal.Parse.Node) (s s' : St) (r : Except Sig Val)
+    (h : runM (eval 0 sc e) s = (r, s')) : s' = s := by
+  unfold eval at h
+  injection h with _ h2
+  exact h2.symm
+
+theorem reads_number (sc : Nat) (n : Ecal.Parse.Node) (hname : n.name = "number") : Reads sc n := by
+  intro f s r s' h
+  cases f with
+  | zero => exact eval_zero_state sc n s s' r h
+  | succ f =>
+    unfold eval at h
+    simp only [hname] at h
+    rw [runM_bind, Ecal.Ev.runM_tokOf] at h
+    cases ht : n.tok with
+    | none => rw [ht] at h; simp only at h; injection h with _ h2; exact h2.symm
+    | some t =>
+      rw [ht] at h
+      simp only at h
+      obtain ⟨x, hx⟩ := numberOf_pure t
+      rw [runM_bind, hx, runM_pure] at h
+      simp only [runM_pure] at h
+      injection h with _ h2; exact h2.symm
+
+theorem reads_plain_identifier (sc : Nat) (n : Ecal.Parse.Node) (t : Ecal.Lex.Tok) (vb : List Nat)
+    (hname : n.name = "identifier") (ht : n.tok = some t) (hc : n.children.isEmpty = true)
+    (hn : splitDots t.val = [vb]) : Reads sc n := by
+  intro f s r s' h
+  match f with
+  | 0 => exact eval_zero_state sc n s s' r h
+  | 1 =>
+    unfold eval at h
+    simp only [hname] at h
+    unfold evalIdent at h
+    injection h with _ h2
+    exact h2.symm
+  | f + 2 => exact eval_plain_identifier_reads f sc n t vb s s' r hname ht hc hn h
+
+/-- `numOp` with operands that only read, only reads -/
+theorem numOp_reads (sc : Nat) (n ca cb : Ecal.Parse.Node) (op : Float → Float → Val)
+    (hch : n.children = [some ca, some cb]) (ha : Reads sc ca) (hb : Reads sc cb) :
+    ∀ f s r s', runM (numOp f sc n op) s = (r, s') → s' = s := by
+  intro f s r s' h
+  cases f with
+  | zero => unfold numOp at h; injection h with _ h2; exact h2.symm
+  | succ f =>
+    unfold numOp at h
+    have hl : (n.children.length != 2) = false := by rw [hch]; rfl
+    have h0 : n.children[0]? = some (some ca) := by rw [hch]; rfl
+    have h1 : n.children[1]? = some (some cb) := by rw [hch]; rfl
+    simp only [hl, Bool.false_eq_true, if_false] at h
+    rw [runM_bind, Ecal.Ev.runM_child, h0] at h
+    simp only at h
+    rw [runM_bind] at h
+    cases hea : runM (eval f sc ca) s with
+    | mk ra sa =>
+      have ea := ha f s ra sa hea
+      subst ea
+      rw [hea] at h
+      cases ra with
+      | error e => simp only at h; injection h with _ h2; exact h2.symm
+      | ok a =>
+        simp only at h
+        rw [runM_bind, Ecal.Ev.runM_child, h1] at h
+        simp only at h
+        rw [runM_bind] at h
+        cases heb : runM (eval f sc cb) sa with
+        | mk rb sb =>
+          have eb := hb f sa rb sb heb
+          subst eb
+          rw [heb] at h
+          cases rb with
+          | error e => simp only at h; injection h with _ h2; exact h2.symm
+          | ok b =>
+            simp only at h
+            cases a <;> cases b <;>
+              first
+              | (simp only [runM_pure] at h; injection h with _ h2; exact h2.symm)
+              | (rw [runM_bind, Ecal.Ev.runM_child] at h
+                 first
+                 | (rw [h0] at h; simp only [runM_throw] at h; injection h with _ h2; exact h2.symm)
+                 | (rw [h1] at h; simp only [runM_throw] at h; injection h with _ h2; exact h2.symm))
+
+/-- right sides of the fragment: plain variables, number literals and the two-operand arithmetic
+    nodes `+ - * / //` over them (any nesting) -/
+inductive ArithExpr : Ecal.Parse.Node → Prop
+  | ident (n : Ecal.Parse.Node) (t : Ecal.Lex.Tok) (vb : List Nat) : n.name = "identifier" → n.tok = some t →
+      n.children.isEmpty = true → splitDots t.val = [vb] → ArithExpr n
+  | number (n : Ecal.Parse.Node) : n.name = "number" → ArithExpr n
+  | arith (n ca cb : Ecal.Parse.Node) : n.children = [some ca, some cb] →
+      (n.name = "plus" ∨ n.name = "minus" ∨ n.name = "times" ∨ n.name = "div" ∨ n.name = "divint") →
+      ArithExpr ca → ArithExpr cb → ArithExpr n
+
+/-- **arithExpr_reads.** Evaluating an arithmetic expression over variables and literals with `eval` — any
+    fuel, any scope, any state, whatever the result (value, type error, fuel) — leaves the state exactly
+    as it was: expressions of the fragment only read. (`eval` on the arithmetic nodes is `numOp`:
+    `Ecal.Lemmas.C06Sites.eval_arith`.) -/
+theorem arithExpr_reads (sc : Nat) (e : Ecal.Parse.Node) (h : ArithExpr e) : Reads sc e := by
+  induction h with
+  | ident n t vb h1 h2 h3 h4 => exact reads_plain_identifier sc n t vb h1 h2 h3 h4
+  | number n h1 => exact reads_number sc n h1
+  | arith n ca cb hch hname _ _ iha ihb =>
+    intro f s r s' h
+    cases f with
+    | zero => exact eval_zero_state sc n s s' r h
+    | succ f =>
+      obtain ⟨op, hop⟩ := Ecal.Lemmas.C06Sites.eval_arith f sc n ca cb hch hname
+      rw [hop] at h
+      exact numOp_reads sc n ca cb op hch iha ihb f s r s' h
+
+/-- **eval_assign_expr_statement_frame.** The assignment statement `v := e` of the evaluator with a plain
+    identifier on the left and ANY right side that only reads (`Reads`, e.g. an `ArithExpr`): evaluated
+    successfully in a scope below the sink, `v` not defined in the declaring chain — a `Frame` step. -/
+theorem eval_assign_expr_statement_frame (snk f sc : Nat) (n lhs rhs : Ecal.Parse.Node) (tl : Ecal.Lex.Tok)
+    (vl : List Nat) (st st' : St) (x : Val)
+    (hname : n.name = ":=") (h0 : n.children[0]? = some (some lhs)) (h1 : n.children[1]? = some (some rhs))
+    (hl : lhs.name = "identifier") (hlc : lhs.children.isEmpty = true) (hlt : lhs.tok = some tl)
+    (hln : splitDots tl.val = [vl]) (hrhs : Reads sc rhs)
+    (hsc : Up st sc snk) (hno : NoOuterDef st snk (bytesToString vl))
+    (h : runM (eval (f + 4) sc n) st = (.ok x, st')) : Frame snk st st' := by
+  unfold eval at h
+  simp only [hname] at h
+  unfold evalAssign at h
+  rw [runM_bind, Ecal.Ev.runM_child, h0] at h
+  have hnl : (lhs.name == "let") = false := by rw [hl]; decide
+  have hid : (lhs.name == "identifier") = true := by rw [hl]; decide
+  simp only [hnl, Bool.false_eq_true, if_false, runM_bind, runM_pure, hid, if_true] at h
+  cases he : runM (eval (f + 2) sc lhs) st with
+  | mk r1 s1 =>
+    have e1 := eval_plain_identifier_reads f sc lhs tl vl st s1 r1 hl hlt hlc hln he
+    subst e1
+    rw [he] at h
+    cases r1 with
+    | error e => simp at h
+    | ok v0 =>
+      simp only at h
+      rw [Ecal.Ev.runM_child, h1] at h
+      simp only at h
+      cases hv : runM (eval (f + 2) sc rhs) s1 with
+      | mk r2 s2 =>
+        have e2 := hrhs (f + 2) s1 r2 s2 hv
+        subst e2
+        rw [hv] at h
+        cases r2 with
+        | error e => simp at h
+        | ok v =>
+          simp only [List.length_cons, List.length_nil, beq_self_eq_true, if_true] at h
+          cases hi : runM (identSet (f + 2) sc lhs v) s2 with
+          | mk r3 s3 =>
+            rw [runM_bind, hi] at h
+            cases r3 with
+            | error e => simp at h
+            | ok u =>
+              cases u
+              simp only [runM_pure] at h
+              injection h with _ hst
+              subst hst
+              exact assign_statement_frame snk (f + 1) sc lhs tl vl v s2 s3 hlt hlc hln hi hsc hno
+
+/-- the statement node `v := e`: plain identifier `v` (one of `names`), `e` an arithmetic expression -/
+def IsAssignExpr (names : List String) (c : Ecal.Parse.Node) : Prop :=
+  ∃ (lhs rhs : Ecal.Parse.Node) (tl : Ecal.Lex.Tok) (vl : List Nat),
+    c.name = ":=" ∧ c.children[0]? = some (some lhs) ∧ c.children[1]? = some (some rhs) ∧
+    lhs.name = "identifier" ∧ lhs.children.isEmpty = true ∧ lhs.tok = some tl ∧ splitDots tl.val = [vl] ∧
+    ArithExpr rhs ∧ bytesToString vl ∈ names
+
+theorem stmtOK_assignExpr (snk f sc : Nat) (names : List String) (c : Ecal.Parse.Node) (h : IsAssignExpr names c) :
+    StmtOK snk (f + 4) sc names c := by
+  obtain ⟨lhs, rhs, tl, vl, h1, h2, h3, h4, h5, h6, h7, h8, h9⟩ := h
+  intro s s' x hctx hr
+  exact eval_assign_expr_statement_frame snk f sc c lhs rhs tl vl s s' x h1 h2 h3 h4 h5 h6 h7
+    (arithExpr_reads sc rhs h8) hctx.below (hctx.fresh _ h9) hr
+
+/-- **computed_body_frame** — `hW` for the wider fragment, about `eval`. A sink body that is a `statements`
+    node of `let v` statements and assignments `v := e` of COMPUTED values — `e` any arithmetic expression
+    (`+ - * / //`, nested) over variables and number literals; `v` a plain identifier among `names`, none of
+    which the declaring chain defines — evaluated successfully by `Ecal.Ev.eval` in the sink scope (or a
+    scope below it) of a well-formed scope table: every scope outside the sink's sub-tree is unchanged;
+    size, parent links and well-formedness are kept. No hypothesis about what evaluation writes. -/
+theorem computed_body_frame (snk f sc : Nat) (names : List String) (n : Ecal.Parse.Node)
+    (hname : n.name = "statements")
+    (hall : ∀ c ∈ n.children, ∃ c', c = some c' ∧ (IsLet c' ∨ IsAssignExpr names c'))
+    (st st' : St) (x : Val) (hctx : Ctx snk sc names st)
+    (h : runM (eval (f + 5) sc n) st = (.ok x, st')) : Frame snk st st' := by
+  refine eval_statements_frame snk (f + 4) sc names n hname ?_ st st' x hctx h
+  intro c hc
+  obtain ⟨c', e, hk⟩ := hall c hc
+  refine ⟨c', e, ?_⟩
+  rcases hk with hk | hk
+  · exact stmtOK_let snk (f + 1) sc names c' hk
+  · exact stmtOK_assignExpr snk f sc names c' hk
+
+/-- **computed_body_leaves_others_alone**: for such a body in invocation A's sink scope, every scope of another
+    invocation B and every scope of the declaring chain is untouched. -/
+theorem computed_body_leaves_others_alone (snkA snkB f : Nat) (names : List String) (n : Ecal.Parse.Node)
+    (hname : n.name = "statements")
+    (hall : ∀ c ∈ n.children, ∃ c', c = some c' ∧ (IsLet c' ∨ IsAssignExpr names c'))
+    (st st' : St) (x : Val) (hctx : Ctx snkA snkA names st)
+    (h : runM (eval (f + 5) snkA n) st = (.ok x, st'))
+    (hAB : ¬ Up st snkA snkB) (hBA : ¬ Up st snkB snkA) :
+    (∀ t, Up st t snkB → st'.scope t = st.scope t) ∧
+    (∀ a, Up st snkA a → a ≠ snkA → st'.scope a = st.scope a) := by
+  have hf := computed_body_frame snkA f snkA names n hname hall st st' x hctx h
+  refine ⟨fun t ht => hf.keep t (disjoint_subtrees st snkA snkB t ht hAB hBA), ?_⟩
+  intro a ha hne
+  apply hf.keep a
+  intro hback
+  have h1 : a ≤ snkA := up_le st hctx.wf ha hctx.snk_lt
+  have h2 : snkA ≤ a := up_le st hctx.wf hback (Nat.lt_of_le_of_lt h1 hctx.snk_lt)
+  exact hne (Nat.le_antisymm h1 h2)
+
+/-- non-vacuity of the syntactic side: `y := g + 1 * x` (bytes y=121, g=103, x=120, literal "1") -/
+def numNode : Ecal.Parse.Node := .mk "number" (some ⟨6, 0, [49], false, false, 0, 1, 1⟩) 0 .none .none [] []
+
+def demoComputed : Ecal.Parse.Node :=
+  .mk ":=" none 0 .none .none
+    [some (idNode 121),
+     some (.mk "plus" none 0 .none .none
+       [some (idNode 103), some (.mk "times" none 0 .none .none [some numNode, some (idNode 120)] [])] [])] []
+
+example : IsAssignExpr ["y"] demoComputed :=
+  ⟨idNode 121, _, _, [121], rfl, rfl, rfl, rfl, rfl, rfl, by decide,
+    ArithExpr.arith _ (idNode 103) _ rfl (Or.inl rfl)
+      (ArithExpr.ident _ _ [103] rfl rfl rfl (by decide))
+      (ArithExpr.arith _ numNode (idNode 120) rfl (Or.inr (Or.inr (Or.inl rfl)))
+        (ArithExpr.number _ rfl) (ArithExpr.ident _ _ [120] rfl rfl rfl (by decide))),
+    by decide⟩
 end Ecal.Props.C11Frame
